@@ -16,7 +16,8 @@ ERR_SUBST = {
     "serde_json::error::Error": "JsonError",
     "fastnbt::error::Error": "NbtError",
 }
-FN_RULES = ["deasync", "attrs", "closure_wild", "generics", "vec_alloc", "str_pattern"]
+FN_RULES = ["deasync", "attrs", "closure_wild", "generics", "vec_alloc", "str_pattern", "take_read", "statics"]
+STATICS = {"std::io::ErrorKind::UnexpectedEof.into()": "vx_eof_error()"}
 
 READER_FNS = ["read_varint", "read_varlong", "read_string", "read_bool", "read_uuid", "read_text_component", "read_bytes"]
 WRITER_FNS = ["write_packet", "write_varint", "write_varlong", "write_string", "write_uuid", "write_bool", "write_text_component", "write_bytes"]
@@ -78,7 +79,7 @@ def build(vacuity=False, only=None):
     for f in READER_FNS:
         key = f"reader.{f}"
         items.append({"key": key, "file": PK + "reader.rs", "kind": "impl_fn", "trait": "AsyncReadPacket", "name": f,
-                      "rules": FN_RULES, "anchors": vxlib.anchors_for(fnc[key], vacuity)})
+                      "rules": FN_RULES, "statics": STATICS, "anchors": vxlib.anchors_for(fnc[key], vacuity)})
     for f in WRITER_FNS:
         key = f"writer.{f}"
         items.append({"key": key, "file": PK + "writer.rs", "kind": "impl_fn", "trait": "AsyncWritePacket", "name": f,
